@@ -24,6 +24,7 @@ import (
 	"github.com/lightningnetwork/lnd/input"
 	"github.com/lightningnetwork/lnd/internal/verif/vstats"
 	"github.com/lightningnetwork/lnd/keychain"
+	"github.com/lightningnetwork/lnd/lntypes"
 	"github.com/lightningnetwork/lnd/lnwallet"
 	"github.com/lightningnetwork/lnd/lnwallet/chainfee"
 	"pgregory.net/rapid"
@@ -393,6 +394,15 @@ type c18Input struct {
 	reqValue int64
 	reqPk    []byte
 
+	// parent: the input is the anchor of a still unconfirmed commitment
+	// transaction (CPFP) and carries that parent's fee and weight, as
+	// contractcourt's anchor resolver sets it. The budget, the maximum fee
+	// rate and the reported fee rate of a sweep speak about the sweep
+	// transaction itself, so nothing in the oracle depends on it; a
+	// publisher that prices the parent in (seeded change C18e) overshoots
+	// them.
+	parent *input.TxInfo
+
 	inp input.Input
 }
 
@@ -480,6 +490,12 @@ func c18BuildInput(m *c18Input, serial int) {
 			m.lockTime,
 		)
 
+	case m.parent != nil:
+		v := input.MakeBaseInput(
+			&m.op, m.kind.wt, desc, heightHint, m.parent,
+		)
+		m.inp = &v
+
 	default:
 		m.inp = input.NewCsvInput(
 			&m.op, m.kind.wt, desc, heightHint, m.csvDelay,
@@ -530,6 +546,17 @@ func c18DrawInput(t *rapid.T, height int32, allowReq bool, lockMode int,
 	m.value = c18DrawValue(t, "value")
 	if k.name == "anchor" && rapid.IntRange(0, 3).Draw(t, "anchor330") != 0 {
 		m.value = 330
+	}
+	if k.name == "anchor" && rapid.Bool().Draw(t, "anchorCPFP") {
+		// Unconfirmed parent: a commitment transaction of 600..2500 wu
+		// paying anything from nothing (zero-fee commitments) to a rate
+		// above the sweep's.
+		w := rapid.Int64Range(600, 2500).Draw(t, "parentWeight")
+		m.parent = &input.TxInfo{
+			Weight: lntypes.WeightUnit(w),
+			Fee: btcutil.Amount(rapid.Int64Range(0, 30).Draw(t,
+				"parentRate") * w / 4),
+		}
 	}
 	if k.csv {
 		m.csvDelay = uint32(rapid.IntRange(1, 2016).Draw(t, "csv"))
